@@ -185,6 +185,47 @@ example : run (fun (l : List Nat) x => l ++ [x]) []
 
 end Noir.KeyedFold
 
+namespace Noir.KeyedRichMap
+open Noir.Fold Noir.KeyedFold
+variable {κ α β : Type} [DecidableEq κ]
+
+/-- **C07 (keyed `rich_map` state, what holds).** With a running-fold closure, the value emitted
+    for an element `(k, v)` is `f s v` where `s` is `k`'s current state (`init` for a new key), and
+    that value becomes `k`'s state; other keys are untouched. -/
+theorem richMap_step (f : β → α → β) (init : β) (st : List (κ × β)) (k : κ) (v : α) :
+    (step f init st (.item (k, v))).2 = [.item (k, f ((lookup st k).getD init) v)] ∧
+    lookup (step f init st (.item (k, v))).1 k = some (f ((lookup st k).getD init) v) ∧
+    ∀ k', k' ≠ k → lookup (step f init st (.item (k, v))).1 k' = lookup st k' := by
+  simp only [step, processItem, lookup_upsert, if_true, Option.getD_some, true_and]
+  intro k' hk'; simp [hk']
+
+/-- Full statement wanted by C07 (per-iteration state): `∀ its k, state of k while processing
+    iteration i = foldl f init (k's values of iteration i so far)`. It does NOT hold
+    (`richMap_resets_counterexample`); what holds is the same with "all iterations so far":
+    the state of `k` after ANY trace — `FlushAndRestart`s included — is the sequential fold of all
+    of `k`'s values seen since the start of the job. -/
+theorem richMap_state_partial (f : β → α → β) (init : β) (es : List (Elem (κ × α))) (k : κ) :
+    lookup (runFrom f init [] es).1 k =
+      if (values (proj k es)).isEmpty then none else some ((values (proj k es)).foldl f init) := by
+  have h : ∀ (es : List (Elem (κ × α))) (st : List (κ × β)),
+      (runFrom f init st es).1 = bodyAccs f init st es := by
+    intro es
+    induction es with
+    | nil => intro st; rfl
+    | cons e es ih => intro st; cases e <;> simp [runFrom, step, bodyAccs, ih]
+  rw [h, lookup_bodyAccs]
+  simp [lookup, foldl_accumulate_none]
+
+/-- **C07 violated for keyed `rich_map` state across iterations** (rich_map.rs:87-89: the
+    `maps_fn.clear()` at `FlushAndRestart` is commented out): key 7 sees 9 in the first iteration
+    and 20 in the second; the second iteration's running sum is 29, not 20. The harness replays
+    this witness on the real chain (`corpus/C07/krmap-far-reset.case`). -/
+theorem richMap_resets_counterexample :
+    run (fun (a : Int) v => a + v) 0 [.item ((7 : Nat), (9 : Int)), .far, .item (7, 20), .far, .term]
+      = [.item (7, 9), .far, .item (7, 29), .far, .term] := by decide
+
+end Noir.KeyedRichMap
+
 namespace Noir.TwoPhase
 variable {α β κ γ : Type}
 
